@@ -145,6 +145,34 @@ impl<'tcx> M<'tcx> {
         }
     }
 
+    /// call a closure / fn item / fn pointer value with already untupled arguments
+    pub fn call_callable(&mut self, cv: V<'tcx>, st: Ty<'tcx>, targs: Vec<(V<'tcx>, Ty<'tcx>)>, ret_ty: Ty<'tcx>) -> R<V<'tcx>> {
+        let tcx = self.tcx;
+        match st.kind() {
+            ty::Closure(cd, cl_args) => {
+                let inst = Instance::new_raw(*cd, cl_args);
+                let body = tcx.instance_mir(inst.def);
+                // first argument: closure env by value or by reference, as the body expects
+                let env_ty = body.local_decls[Local::from_usize(1)].ty;
+                let envv = match (env_ty.kind(), &cv) {
+                    (ty::Ref(..), V::Ptr(_)) => cv.clone(),
+                    (ty::Ref(..), v) => {
+                        let a = self.new_alloc((*v).clone(), "closure-env");
+                        V::Ptr(Ptr { alloc: a, path: vec![], off: 0, sl: None })
+                    }
+                    (_, V::Ptr(p)) => self.load(p, st)?,
+                    (_, v) => (*v).clone(),
+                };
+                let mut a2 = vec![(envv, env_ty)];
+                a2.extend(targs);
+                self.run_instance(inst, a2)
+            }
+            ty::FnDef(fd, fa) => self.call_def(*fd, fa, targs, ret_ty),
+            ty::FnPtr(..) => self.call_value(cv, targs, ret_ty),
+            o => unsup(format!("call through {:?}", o)),
+        }
+    }
+
     pub fn call_def(&mut self, d: DefId, cargs: ty::GenericArgsRef<'tcx>, mut vals: Vec<(V<'tcx>, Ty<'tcx>)>, ret_ty: Ty<'tcx>) -> R<V<'tcx>> {
         let tcx = self.tcx;
         let name = self.defname(d);
@@ -207,29 +235,7 @@ impl<'tcx> M<'tcx> {
                     cvt = inner;
                 }
                 let targs: Vec<(V<'tcx>, Ty<'tcx>)> = tup.into_iter().zip(tts).collect();
-                match st.kind() {
-                    ty::Closure(cd, cl_args) => {
-                        let inst = Instance::new_raw(*cd, cl_args);
-                        let body = tcx.instance_mir(inst.def);
-                        // first argument: closure env by value or by reference, as the body expects
-                        let env_ty = body.local_decls[Local::from_usize(1)].ty;
-                        let envv = match (env_ty.kind(), &cv) {
-                            (ty::Ref(..), V::Ptr(_)) => cv.clone(),
-                            (ty::Ref(..), v) => {
-                                let a = self.new_alloc((*v).clone(), "closure-env");
-                                V::Ptr(Ptr { alloc: a, path: vec![], off: 0, sl: None })
-                            }
-                            (_, V::Ptr(p)) => self.load(p, st)?,
-                            (_, v) => (*v).clone(),
-                        };
-                        let mut a2 = vec![(envv, env_ty)];
-                        a2.extend(targs);
-                        return self.run_instance(inst, a2);
-                    }
-                    ty::FnDef(fd, fa) => return self.call_def(*fd, fa, targs, ret_ty),
-                    ty::FnPtr(..) => return self.call_value(cv, targs, ret_ty),
-                    o => return unsup(format!("call through {:?}", o)),
-                }
+                return self.call_callable(cv, st, targs, ret_ty);
             }
         }
         // 3. opaque (summarised) callees requested by the root's configuration
